@@ -18,7 +18,7 @@ Tr == T.traces[tid]
 St0 == [run |-> 0, rets |-> {}, tos |-> {}, asks |-> {}, bad |-> "ok"]
 
 Apply(s, r) ==
-  LET s0 == IF r.run # s.run THEN [St0 EXCEPT !.run = r.run] ELSE s IN
+  LET s0 == IF r.run # s.run THEN [St0 EXCEPT !.run = r.run, !.asks = s.asks] ELSE s IN     \* asks survive a resume
   CASE r.e = "wait_ret" ->
          LET key == <<r.step, r.uid, r.wid>> IN
          [s0 EXCEPT !.rets = @ \cup {key},
